@@ -325,6 +325,11 @@ func (tbl *Table) Select(sels Sels) {
 	}
 	dbg.Assert(!selConflict(tbl.header.Columns, sels))
 	org, end := selKeys(tbl.indexEncode, tbl.index, sels)
+	if ix := &tbl.schema.Indexes[tbl.iIndex]; org == "" &&
+		len(ix.Ixspec.Fields2) > 0 {
+		// empty values in a unique index have the key appended (as in Lookup)
+		org, end = selKeys(true, set.Union(ix.Fields, ix.BestKey), sels)
+	}
 	tbl.SelectRaw(org, end)
 }
 
